@@ -373,6 +373,70 @@ theorem C23_status_old_new_or_absent (c : Codec) (kind : Path → Kind) (fs : Fs
   · right
     exact ⟨steps.length, Nat.le_refl _, by simp [fs', ht, after]⟩
 
+/-! ## The next run -/
+
+open Engine StoreFile in
+/-- **C23, the next run sees the same.** Let a run visit a publication point whose file is
+`file`, with collector offer `offer`. A crash can leave the point's file untouched, with a
+refreshed or torn `LastAttempt` header (`file'.stored = file.stored`), already replaced by the
+new version (`file' = ` the file after the visit), or — if the visit discarded an inconsistent
+stored copy — as a bare or torn `LastAttempt` header. Revisiting the point from any of these
+with the same offer (same clock and configuration) yields exactly the result of the
+uninterrupted visit: same payload, same child CAs, same acceptance. -/
+theorem C23_next_visit_same (cfg : Cfg) (now : Int) (offer : Offer) (file file' : PointFile)
+    (ca : CaCtx) (reorder : List Entry → List Entry) (hperm : ∀ l, (reorder l).Perm l)
+    (hvar : file'.stored = file.stored
+      ∨ file' = (processPointFile cfg now (some offer) file ca reorder).2
+      ∨ (file'.stored = none ∧ file.stored ≠ none
+          ∧ (processPointFile cfg now (some offer) file ca reorder).2 = .attempt now)) :
+    (processPointFile cfg now (some offer) file' ca reorder).1
+      = (processPointFile cfg now (some offer) file ca reorder).1 := by
+  have same_stored : ∀ f', f'.stored = file.stored →
+      (processPointFile cfg now (some offer) f' ca reorder).1
+        = (processPointFile cfg now (some offer) file ca reorder).1 := by
+    intro f' h
+    rw [(C04_refines_engine cfg now (some offer) f' ca reorder).1,
+      (C04_refines_engine cfg now (some offer) file ca reorder).1, h]
+  -- a file without stored version, when the visit of `file` rejected the stored copy
+  have rejected : ∀ f', f'.stored = none → file.stored ≠ none →
+      (processPointFile cfg now (some offer) file ca reorder).2 = .attempt now →
+      (processPointFile cfg now (some offer) f' ca reorder).1
+        = (processPointFile cfg now (some offer) file ca reorder).1 := by
+    intro f' hnone hsome hatt
+    rcases C04_point_step cfg now (some offer) file ca reorder hperm with
+      ⟨_, _, _, _, _, _, _, _, hout, _⟩ | ⟨hout, _⟩
+        | ⟨t, s, offer', mf, vm, crl, _, _, hoff, hm, hv, _, hres, hbad⟩
+    · rw [hout] at hatt; cases hatt
+    · exfalso
+      apply hsome
+      have := touch_stored now file
+      rw [← hout, hatt] at this
+      exact this.symm
+    · cases hoff
+      rw [hres, (C04_refines_engine cfg now (some offer) f' ca reorder).1, hnone]
+      obtain ⟨acc, hacc⟩ := runEntries_aborted cfg now ca vm (offer.get ca.info.mft).files
+        (reorder vm.mft.entries) [] [] []
+        (by obtain ⟨e, he, hb⟩ := hbad; exact ⟨e, (hperm _).mem_iff.mpr he, hb⟩)
+      simp [processPointWith, processCollectedWith, hm, sameManifest, hv, collectedIsNewer, hacc,
+        storedResult]
+  rcases hvar with h | h | ⟨hnone, hsome, hatt⟩
+  · exact same_stored file' h
+  · rcases C04_point_step cfg now (some offer) file ca reorder hperm with
+      ⟨offer', mf, vm, crl, objs, hoff, hacc, _, hout, _⟩ | ⟨hout, _⟩
+        | ⟨t, s, _, _, _, _, hfile, _, _, _, _, hout, _⟩
+    · cases hoff
+      have husable := C04_stored_version_usable cfg now offer file ca reorder reorder hperm hacc
+      obtain ⟨h1, _, _⟩ := husable
+      rw [← h1, h, (C04_refines_engine cfg now (some offer) _ ca reorder).1, hout]
+      have hm := hacc.mft
+      simp only [processPointWith, processCollectedWith, hm, PointFile.stored, sameManifest,
+        beq_self_eq_true, Bool.and_self, ↓reduceIte, processPointFile, PointFile.open]
+    · apply same_stored
+      rw [h, hout]; exact touch_stored now file
+    · apply rejected file' (by rw [h, hout]; rfl) (by rw [hfile]; simp [PointFile.stored])
+      exact hout
+  · exact rejected file' hnone hsome hatt
+
 /-! ## The code as found: negation witnesses, and non-vacuity -/
 
 namespace C23Example
